@@ -95,6 +95,34 @@ func probeChildren() childTables {
 					}
 				}
 			}
+			// an interface-typed slot: every concrete node type that fits must be returned as well (a type switch or an
+			// interface assertion inside Children() that lets some kinds of statements / expressions through only)
+			if row.Emitted && p.Leaf == leafIface {
+				for _, nt := range nodeTypes {
+					plantConcrete = nt
+					inst2 := reflect.New(t)
+					pl2 := plant(inst2.Elem(), p, fmt.Sprintf("SENTINEL_%s_%d_%s", t.Name(), i, nt.Name()), 0)
+					plantConcrete = nil
+					if !pl2.OK {
+						continue
+					}
+					kids2, pan2 := safeChildren(inst2.Interface().(ast.Node))
+					n := 0
+					for _, k := range kids2 {
+						if pl2.matches(k) {
+							n++
+						}
+					}
+					if n != 1 || pan2 != "" {
+						row.Emitted = false
+						row.Why = fmt.Sprintf("not returned exactly once (%d times) when the slot holds a *%s", n, nt.Name())
+						if pan2 != "" {
+							row.Why = "panic when the slot holds a *" + nt.Name() + ": " + pan2
+						}
+						break
+					}
+				}
+			}
 			res.Rows = append(res.Rows, row)
 		}
 		// all at once
